@@ -109,6 +109,7 @@ fn p_c08() -> Profile {
 fn p_c09() -> Profile {
     let mut p = Profile::base();
     p.blob = Tri::Always;
+    p.wild_weak_deletes = true;
     p.filter_fn = Tri::Maybe;
     p.w[W_MAJOR] = 8;
     p.w[W_LEVELED] = 10;
@@ -378,7 +379,7 @@ pub fn all_props() -> Vec<PropDef> {
             id: "C02",
             engine: EngineKind::Seq,
             level: "exploration",
-            decisive: &["snapshot"],
+            decisive: &["snapshot", "conc"],
             quick_runs: 4000,
             thorough_runs: 50000,
             rule: "history with up to 4 live snapshots (S read from visible_seqno); every later maintenance call gets a watermark strictly below every live snapshot; after every step each live snapshot re-reads every key, a full scan, len, first/last against the view frozen when it was opened. Non-trivial: a snapshot was re-read while it resolved to a non-latest super version.",
@@ -430,7 +431,7 @@ pub fn all_props() -> Vec<PropDef> {
             id: "C06",
             engine: EngineKind::Conc,
             level: "exploration",
-            decisive: &["conc", "deadlock"],
+            decisive: &["conc", "deadlock", "snapshot"],
             quick_runs: 2500,
             thorough_runs: 30000,
             rule: "one run = one workload (writer with batches, 1-2 readers taking snapshots from visible_seqno through a snapshot tracker, flusher, 1-3 Leveled compactors, optionally a major_compact/drop_range thread; watermarks strictly below the oldest live snapshot) executed by real threads under one seeded schedule (uniform random or PCT with 1-4 priority change points; file-system-call yield points in half of the runs). Every read is checked afterwards against the model with the in-flight window (a write whose seqno is below the snapshot but which had not returned when the snapshot was read may or may not be visible); no Err, no panic, no deadlock; at quiescence the content equals all acknowledged writes, nothing stays hidden, the structure audit passes, and flush+reopen gives the same content. Non-trivial: >=2 maintenance operations of different threads overlapped in time and >=10 context switches. Distinct interleavings = distinct hashes of the (thread, site class) sequence.",
